@@ -56,3 +56,8 @@ pub proof fn axiom_vec_len_bound<T>(v: &Vec<T>)
 // A-STD (trusted): Vec::extend only appends
 pub assume_specification<T, A: std::alloc::Allocator, I: IntoIterator<Item = T>> [<Vec<T, A> as Extend<T>>::extend] (v: &mut Vec<T, A>, iter: I)
     ensures final(v)@.len() >= old(v)@.len(), forall|i: int| 0 <= i < old(v)@.len() ==> #[trigger] final(v)@[i] == old(v)@[i];
+// A-STR (trusted): str values with the same content are the same spec value (used for `match s { "Int" => .. }`)
+#[verifier::external_body]
+pub proof fn axiom_str_ext(a: &str, b: &str)
+    ensures (a@ == b@) == (a == b)
+{}
